@@ -99,10 +99,21 @@ def replay(flavour, h, notes=None):
                     d, n = e["a"]
                     queued.append((g, d, gram_bytes(g, n)))
                     m.gramit(gram_bytes(g, n), DST[flavour][d])
+                elif e["op"] == "bounce":          # the transport is closed and opened again
+                    m.close()
+                    if flavour == "memoer":
+                        m.reopen()
+                    else:
+                        m.ls = FakeDgramSocket(script)
+                    m.opened = True
+                elif e["op"] == "greedy":
+                    script.plan = [("unreachable",) if a[0] == "unreachable" else ("acc", a[1]) for a in e["a"]]
+                    m.serviceTxGrams()
+                    script.plan = []
                 else:
                     a = e["a"]
                     script.plan = [("unreachable",)] if a[0] == "unreachable" else [("acc", a[1])]
-                    m.serviceTxGramsOnce()
+                    (m.serviceTxGramsOnce, m.serviceAllTxOnce)[k % 2]()
                     script.plan = []
         except core.Hang:
             return "call %d did not return" % (k + 1)
@@ -142,7 +153,8 @@ def replay(flavour, h, notes=None):
     if o["ntxgs"] or o["rem"]:
         return "with a transport that accepts everything serviceAllTx() leaves %d grams queued and %d bytes in flight (history %s)" % (
             o["ntxgs"], o["rem"], [(x["op"], x["a"]) for x in h])
-    ndropped = sum(1 for x in h if x["op"] == "service" and x["a"][0] == "unreachable")
+    ndropped = sum(1 for x in h if x["op"] == "service" and x["a"][0] == "unreachable") + \
+        sum(1 for x in h if x["op"] == "greedy" for a in x["a"] if a[0] == "unreachable")
     total = sum(len(o["wire"][d]) for d in ("d1", "d2"))
     want_min = sum(len(b) for (_, _, b) in queued) - sum(sorted((len(b) for (_, _, b) in queued), reverse=True)[:ndropped])
     if total < want_min:
@@ -156,7 +168,7 @@ def run(ctx):
     r = ctx.tlc("memo", "TxPressure", core.cfg_text(constants=consts, invariants=["WireExact", "NoLoss", "OneInFlight"], view="MCView"))
     for v in r.violated:
         ctx.violation("the model violates %s" % v, {"tlc": r.out[-3000:]})
-    hs = ctx.tlc("memo", "TxPressureGen", core.cfg_text(constants=dict(consts, MaxOps=4, MaxGrams=2), constraints=["Dump"]), workers=1).tagged_json("BH")
+    hs = ctx.tlc("memo", "TxPressureGen", core.cfg_text(constants=dict(consts, MaxOps=3 if ctx.quick else 4, MaxGrams=2), constraints=["Dump"]), workers=1).tagged_json("BH")
     nex = len(hs)
     nsim, dep = (120, 10) if ctx.quick else (4000, 14)
     hs += ctx.tlc("memo", "TxPressureGen", core.cfg_text(constants=dict(consts, MaxOps=dep, MaxGrams=5, Lens={1, 2, 4}), constraints=["Dump"]),
@@ -175,7 +187,9 @@ def run(ctx):
                 ctx.divergence("%s: %s" % (flavour, notes[0]))
     ctx.exhaustive = True
     return ctx.finish(rule="one case per (Memoer with scripted send | UDP PeerMemoer | UXD PeerMemoer on a scripted socket, history); "
-                           "histories: all of length 4 + simulated ones of length 10/14; acceptance counts {0,1,2,3,all} and unreachable",
+                           "histories: all of length 3 (quick) / 4 + simulated ones of length 10/14 over queue, single service call (alternately "
+                           "serviceTxGramsOnce / serviceAllTxOnce), greedy serviceTxGrams with the first one or two sends planned, close + "
+                           "reopen of the transport; acceptance counts {0,1,2,3,all} and unreachable",
                       assumptions=["grams are queued directly with gramit(); segmentation of memos is C20's subject"])
 
 
